@@ -3,7 +3,7 @@
 //! and only these few lines are monomorphised per configuration.
 use ark_ff::{
     batch_inversion, batch_inversion_and_mul, serial_batch_inversion_and_mul, AdditiveGroup, BigInt, FftField, Field, Fp,
-    FpConfig, LegendreSymbol, PrimeField,
+    FpConfig, LegendreSymbol, MontBackend, MontConfig, PrimeField,
 };
 use ark_std::{One, Zero};
 use oracle::UInt;
@@ -57,6 +57,24 @@ pub trait PF: Send + Sync {
     fn frobenius(&self, a: &[u64], k: usize) -> L;
     fn mul_by_base_prime_field(&self, a: &[u64], b: &[u64]) -> L;
     fn rand(&self, rng: &mut monitor::Rng) -> L;
+    /// `Fp::new(BigInt(int))`: the `const fn` constructor behind `MontFp!`, executed at run time
+    fn const_new(&self, int: &[u64]) -> L;
+    /// `Fp::from_sign_and_limbs(positive, limbs)` (limbs.len() <= N): what `MontFp!` expands to
+    fn const_sign_limbs(&self, positive: bool, limbs: &[u64]) -> L;
+}
+
+/// The `const fn` constructors exist on Montgomery-backed fields only (every monitored configuration is one).
+pub trait ConstCtor<const N: usize>: FpConfig<N> {
+    fn c_new(x: BigInt<N>) -> Fp<Self, N>;
+    fn c_sign_limbs(positive: bool, limbs: &[u64]) -> Fp<Self, N>;
+}
+impl<T: MontConfig<N>, const N: usize> ConstCtor<N> for MontBackend<T, N> {
+    fn c_new(x: BigInt<N>) -> Fp<Self, N> {
+        Fp::<MontBackend<T, N>, N>::new(x)
+    }
+    fn c_sign_limbs(positive: bool, limbs: &[u64]) -> Fp<Self, N> {
+        Fp::<MontBackend<T, N>, N>::from_sign_and_limbs(positive, limbs)
+    }
 }
 
 pub struct Ad<P: FpConfig<N>, const N: usize>(pub PhantomData<P>);
@@ -85,7 +103,13 @@ macro_rules! sop_arm {
     };
 }
 
-impl<P: FpConfig<N>, const N: usize> PF for Ad<P, N> {
+impl<P: FpConfig<N> + ConstCtor<N>, const N: usize> PF for Ad<P, N> {
+    fn const_new(&self, int: &[u64]) -> L {
+        Self::l(P::c_new(BigInt::<N>(int.try_into().expect("limb count"))))
+    }
+    fn const_sign_limbs(&self, positive: bool, limbs: &[u64]) -> L {
+        Self::l(P::c_sign_limbs(positive, limbs))
+    }
     fn n(&self) -> usize {
         N
     }
@@ -336,6 +360,6 @@ pub struct Cfg {
     pub hand: bool,
 }
 
-pub fn mk<P: FpConfig<N>, const N: usize>(_: PhantomData<Fp<P, N>>, name: &str, hand: bool) -> Cfg {
+pub fn mk<P: FpConfig<N> + ConstCtor<N>, const N: usize>(_: PhantomData<Fp<P, N>>, name: &str, hand: bool) -> Cfg {
     Cfg { name: name.to_string(), pf: Box::new(Ad::<P, N>(PhantomData)), hand }
 }
